@@ -40,6 +40,119 @@ theorem C12_no_trunc (s : List G) (width : Nat) (align : Align) (h : width < col
   have : cols s - width > 0 := by omega
   simp [this]
 
+/-- content in which every character is one byte and one column wide -/
+def Plain (s : List G) : Prop := ∀ g ∈ s, g.b = 1 ∧ g.w = 1
+
+theorem plain_cols (s : List G) (h : Plain s) : cols s = s.length ∧ bytes s = s.length := by
+  induction s with
+  | nil => exact ⟨rfl, rfl⟩
+  | cons g gs ih =>
+    have hg := h g (by simp)
+    have ih' := ih (fun x hx => h x (by simp [hx]))
+    simp only [cols, bytes, List.map_cons, List.sum_cons, List.length_cons] at ih' ⊢
+    omega
+
+/-- on plain content the byte slice is the character slice -/
+theorem byteSlice_go_plain (start stop : Nat) : ∀ (rest : List G) (off : Nat) (acc : List G), Plain rest →
+    off ≤ stop → stop ≤ off + rest.length → start ≤ stop →
+    byteSlice.go start stop off acc rest = some (acc.reverse ++ (rest.drop (start - off)).take (stop - max start off)) := by
+  intro rest
+  induction rest with
+  | nil =>
+    intro off acc _ h1 h2 h3
+    have : off = stop := by simp at h2; omega
+    subst this
+    simp only [byteSlice.go, true_and, h3, if_true]
+    split <;> simp_all
+  | cons g gs ih =>
+    intro off acc hp h1 h2 h3
+    have hg := (hp g (by simp)).1
+    have hp' : Plain gs := fun x hx => hp x (by simp [hx])
+    simp only [byteSlice.go]
+    by_cases he : off = stop
+    · subst he
+      have hm : max start off = off := Nat.max_eq_right h3
+      simp [h3, hm]
+    · simp only [he, if_false]
+      by_cases hlt : off < start
+      · simp only [hlt, if_true, hg]
+        have h4 : off + 1 ≤ start := hlt
+        simp only [h4, if_true]
+        rw [ih (off + 1) acc hp' (by omega) (by simp at h2; omega) h3]
+        have hd : start - off = (start - (off + 1)) + 1 := by omega
+        have hm1 : max start off = start := Nat.max_eq_left (by omega)
+        have hm2 : max start (off + 1) = start := Nat.max_eq_left h4
+        rw [hd, List.drop_succ_cons, hm1, hm2]
+      · simp only [hlt, if_false, hg]
+        have h4 : off + 1 ≤ stop := by omega
+        simp only [h4, if_true]
+        rw [ih (off + 1) (g :: acc) hp' h4 (by simp at h2; omega) h3]
+        have hd0 : start - off = 0 := by omega
+        have hd1 : start - (off + 1) = 0 := by omega
+        have hm1 : max start off = off := Nat.max_eq_right (by omega)
+        have hm2 : max start (off + 1) = off + 1 := Nat.max_eq_right (by omega)
+        have ht : stop - off = (stop - (off + 1)) + 1 := by omega
+        rw [hd0, hd1, hm1, hm2, ht]
+        simp [List.take_succ_cons]
+
+theorem byteSlice_plain (s : List G) (h : Plain s) (start stop : Nat) (h1 : start ≤ stop) (h2 : stop ≤ s.length) :
+    byteSlice s start stop = some ((s.drop start).take (stop - start)) := by
+  unfold byteSlice
+  have hb := (plain_cols s h).2
+  have hn : ¬ (start > stop ∨ stop > bytes s) := by omega
+  simp only [hn, if_false]
+  rw [byteSlice_go_plain start stop s 0 [] h (Nat.zero_le _) (by omega) h1]
+  simp [Nat.max_eq_left (Nat.zero_le start)]
+
+/-- **C12, truncation — `_partial`: content whose characters are all one byte and one column wide.**
+Too wide and `!` requested: exactly `width` columns are kept, from the start (`<`), the end (`>`) or
+the middle (`^`, dropping `⌊excess/2⌋` columns in front).
+
+The full statement (every content, including multi-byte, double-width and combining characters and
+ANSI sequences) does not hold for the code as it is — `C12_trunc_fails_non_ascii` below — and is
+listed as finding F11. -/
+theorem C12_trunc_ascii_partial (s : List G) (hp : Plain s) (width : Nat) (align : Align) (h : width < cols s) :
+    let excess := cols s - width
+    let skip := match align with | .left => 0 | .right => excess | .center => excess / 2
+    pad s width align true = (s.drop skip).take width ∧ cols (pad s width align true) = width := by
+  intro excess skip
+  have ⟨hc, hb⟩ := plain_cols s hp
+  have hex : cols s - width > 0 := by omega
+  have hpad : pad s width align true = (s.drop skip).take width := by
+    unfold pad
+    simp only [hex, true_and, Bool.not_eq_true, Bool.true_eq_false, not_false_eq_true, if_false]
+    cases align with
+    | left =>
+      simp only []
+      rw [byteSlice_plain s hp 0 (bytes s - (cols s - width)) (Nat.zero_le _) (by omega)]
+      have : bytes s - (cols s - width) - 0 = width := by omega
+      simp [this, skip]
+    | right =>
+      simp only []
+      rw [byteSlice_plain s hp (cols s - width) (bytes s) (by omega) (by omega)]
+      have : bytes s - (cols s - width) = width := by omega
+      simp [this, skip, excess]
+    | center =>
+      simp only []
+      have hd := Nat.div_le_self (cols s - width) 2
+      rw [byteSlice_plain s hp ((cols s - width) / 2) (bytes s - (cols s - width - (cols s - width) / 2)) (by omega) (by omega)]
+      have : bytes s - (cols s - width - (cols s - width) / 2) - (cols s - width) / 2 = width := by omega
+      simp [this, skip, excess]
+  refine ⟨hpad, ?_⟩
+  rw [hpad]
+  have hplain : Plain ((s.drop skip).take width) := fun g hg => hp g (List.mem_of_mem_drop (List.mem_of_mem_take hg))
+  rw [(plain_cols _ hplain).1, List.length_take, List.length_drop]
+  have hskip : skip ≤ cols s - width := by
+    cases align <;> simp only [skip, excess] <;> first | omega | exact Nat.div_le_self _ _
+  omega
+
+/-- non-vacuity -/
+example : Plain [⟨97, 1, 1⟩, ⟨98, 1, 1⟩, ⟨99, 1, 1⟩, ⟨100, 1, 1⟩, ⟨101, 1, 1⟩] ∧
+    pad [⟨97, 1, 1⟩, ⟨98, 1, 1⟩, ⟨99, 1, 1⟩, ⟨100, 1, 1⟩, ⟨101, 1, 1⟩] 2 .center true = [⟨98, 1, 1⟩, ⟨99, 1, 1⟩] := by
+  constructor
+  · intro g hg; simp at hg; rcases hg with h | h | h | h | h <;> subst h <;> exact ⟨rfl, rfl⟩
+  · decide
+
 /-- **Truncation by byte offsets is wrong for non-ASCII content** (candidate F11): five two-byte,
 one-column glyphs truncated to three columns keep four columns (start / end) or all five (middle). -/
 theorem C12_trunc_fails_non_ascii :
